@@ -228,6 +228,10 @@ def reward(spec, w0, action, w1):
     g = lambda k, dflt: spec.get(k, dflt)  # noqa: E731
     if n == 'reduce_sum':
         return sum(reward(p, w0, action, w1) for p in spec['parts'])
+    if n == 'reduce':
+        # the generic composite: "reduction operator over the input reward functions"
+        vals = [reward(p, w0, action, w1) for p in spec['parts']]
+        return {'max': max, 'min': min, 'sum': sum, 'first': lambda v: v[0], 'last': lambda v: v[-1]}[spec['reduction']](vals)
     if n == 'living_reward':
         return g('reward', -1.0)
     if n == 'overlap':
